@@ -156,6 +156,7 @@ func (f *facts) kill(path string) {
 type nilSummary struct {
 	requires     map[int]string  // parameter index (receiver = 0 for methods) → description of the unguarded dereference
 	mayReturnNil map[int]bool    // result index → may be nil while the error result (if any) is nil
+	nilUnlessOK  map[int]bool    // result index → nil only in returns whose trailing bool result is the constant false
 	retFields    map[string]bool // fields of result 0 that are non-nil on every return (constructors)
 	retSeen      bool
 	done         bool
@@ -214,7 +215,7 @@ func (e *nilEngine) summary(f *types.Func) *nilSummary {
 	if s, ok := e.sums[f]; ok {
 		return s
 	}
-	s := &nilSummary{requires: map[int]string{}, mayReturnNil: map[int]bool{}}
+	s := &nilSummary{requires: map[int]string{}, mayReturnNil: map[int]bool{}, nilUnlessOK: map[int]bool{}}
 	e.sums[f] = s
 	d := e.decls[f]
 	if d == nil {
@@ -555,6 +556,9 @@ func (w *nilWalker) absent(e ast.Expr, depth int) (bool, string) {
 			if s := w.e.summary(f); s.mayReturnNil[0] {
 				return true, objName(f) + " may return nil"
 			}
+			if s := w.e.summary(f); s.nilUnlessOK[0] && !s.mayReturnNil[0] {
+				return true, objName(f) + " returns nil together with ok == false"
+			}
 		}
 		return false, ""
 	case *ast.IndexExpr:
@@ -846,6 +850,19 @@ func (w *nilWalker) stmt(s ast.Stmt, f *facts) (*facts, bool) {
 			}
 		}
 		if len(x.Lhs) == 2 && len(x.Rhs) == 1 {
+			// v, ok := f(…) with f returning nil only next to ok == false
+			if ce, isCall := x.Rhs[0].(*ast.CallExpr); isCall {
+				if fn, _ := typeutil.Callee(info, ce).(*types.Func); fn != nil && fn.Pkg() != nil && strings.HasPrefix(fn.Pkg().Path(), modPath+"/") && w.e.summary(fn).nilUnlessOK[0] {
+					if okObj := objOf(w.d.pkg, x.Lhs[1]); okObj != nil {
+						if w.okLookups == nil {
+							w.okLookups = map[types.Object][]string{}
+						}
+						if p := w.rawPath(x.Lhs[0]); p != "" && p != "_" {
+							w.okLookups[okObj] = []string{p}
+						}
+					}
+				}
+			}
 			if ix, isIx := x.Rhs[0].(*ast.IndexExpr); isIx {
 				if okObj := objOf(w.d.pkg, x.Lhs[1]); okObj != nil {
 					if w.okLookups == nil {
@@ -1678,6 +1695,21 @@ func (w *nilWalker) returns(x *ast.ReturnStmt, f *facts) {
 			}
 		}
 		if mayNil && errNil {
+			// (nil, false) of a (v, ok) function: nil only when the caller is told so
+			if w.resErr < 0 && len(results) >= 2 {
+				last := results[len(results)-1]
+				if lt := w.d.pkg.TypesInfo.TypeOf(last); lt != nil {
+					if b, isB := lt.Underlying().(*types.Basic); isB && b.Kind() == types.Bool {
+						if v, isC := constOf(w.d.pkg, last); isC && v.c.ExactString() == "false" {
+							if w.sum.nilUnlessOK == nil {
+								w.sum.nilUnlessOK = map[int]bool{}
+							}
+							w.sum.nilUnlessOK[i] = true
+							continue
+						}
+					}
+				}
+			}
 			w.sum.mayReturnNil[i] = true
 		}
 	}
